@@ -49,10 +49,13 @@ for n in names:
     d = f'{V}/seeded/{n}'
     pf = f'{d}/patch.diff'
     prop = n.split('-')[0]
-    if subprocess.run(['git', '-C', REPO, 'apply', '--check', pf], capture_output=True).returncode != 0:
+    if subprocess.run(['git', '-C', REPO, 'apply', '--check', pf], capture_output=True).returncode == 0:
+        subprocess.run(['git', '-C', REPO, 'apply', pf], check=True)
+    elif subprocess.run(['git', '-C', REPO, 'apply', '--3way', pf], capture_output=True).returncode != 0:
+        # (the change was written against an earlier /repo: later fix: commits touched the same lines)
+        subprocess.run(['git', '-C', REPO, 'reset', '-q', '--hard'])
         res[n] = {'result': 'patch does not apply to the current /repo'}
         print(n, res[n]); continue
-    subprocess.run(['git', '-C', REPO, 'apply', pf], check=True)
     try:
         r = {'result': 'MISSED'}
         for pr in [prop] + extra.get(n, []):
@@ -72,6 +75,6 @@ for n in names:
         res[n] = r
         print(n, r, flush=True)
     finally:
-        subprocess.run(['git', '-C', REPO, 'checkout', '--', '.'])
+        subprocess.run(['git', '-C', REPO, 'reset', '-q', '--hard'])
         subprocess.run(['git', '-C', REPO, 'clean', '-fdq'])
     json.dump(res, open(rp, 'w'), indent=1, sort_keys=True)
